@@ -58,7 +58,7 @@ def guard_local(b, t):
     return None
 
 
-def live_blocks(b, def_bb, g):
+def live_blocks(b, def_bb, g, skip_def_term=True, depth=0):
     """Blocks executed while guard local g may be live: forward from its definition until its drop / move-out."""
     succ = b.succ_map()
     seen = set()
@@ -69,9 +69,16 @@ def live_blocks(b, def_bb, g):
             continue
         seen.add(x)
         t = b.blocks[x]["term"]
-        if t["k"] == "drop" and t["pl"]["l"] == g and not t["pl"]["p"] and x != def_bb:
+        if x != def_bb or not skip_def_term:
+            # the guard moved as a whole into another local (`drop(guard)` goes through a temporary): that local owns it from here
+            mv = [s_["pl"]["l"] for s_ in b.blocks[x]["stmts"] if s_["k"] == "assign" and not s_["pl"]["p"] and s_["rv"]["k"] == "use" and
+                  s_["rv"]["op"]["k"] == "move" and s_["rv"]["op"]["pl"]["l"] == g and not s_["rv"]["op"]["pl"]["p"]]
+            if mv and depth < 4:
+                seen |= live_blocks(b, x, mv[0], skip_def_term=False, depth=depth + 1)
+                continue
+        if t["k"] == "drop" and t["pl"]["l"] == g and not t["pl"]["p"] and (x != def_bb or not skip_def_term):
             continue
-        if t["k"] == "call" and x != def_bb and any(a["k"] == "move" and a["pl"]["l"] == g and not a["pl"]["p"] for a in t["args"]):
+        if t["k"] == "call" and (x != def_bb or not skip_def_term) and any(a["k"] == "move" and a["pl"]["l"] == g and not a["pl"]["p"] for a in t["args"]):
             continue  # guard moved into a call (e.g. mem::drop)
         if t["k"] == "return":
             continue
